@@ -471,10 +471,18 @@ impl FileMetaStore {
         value: &[u8],
     ) -> Result<(), Error> {
         if key == HARD_STATE_KEY {
+            // Write a temporary file, sync it, then rename it over the old one: `File::create` on the
+            // live file truncates it first, and a crash before the new bytes are complete left an
+            // undecodable file that a restart reads as "no hard state" (term and vote lost).
             let hard_state_path = self.data_dir.join(HARD_STATE_FILE_NAME);
-            let mut file = File::create(hard_state_path)?;
-            file.write_all(value)?;
-            file.flush()?;
+            let tmp_path = self.data_dir.join(format!("{HARD_STATE_FILE_NAME}.tmp"));
+            {
+                let mut file = File::create(&tmp_path)?;
+                file.write_all(value)?;
+                file.flush()?;
+                file.sync_all()?;
+            }
+            std::fs::rename(&tmp_path, &hard_state_path)?;
         }
 
         Ok(())
